@@ -407,6 +407,15 @@ func classifyListStore(w *World, v ssa.Value, ref string) (kind string, elem ssa
 		if ok0 && ok1 && isZeroOrNil(lo0) && hi0 != nil && hi1 == nil && lo1 != nil && isPlusOne(lo1, hi0) {
 			return "delete-one", nil, hi0
 		}
+	case 3:
+		// delete-one into storage of its own: append(append(empty, ref[0:i]...), ref[i+1:]...)
+		if ch[0].spread != nil && isEmptyList(ch[0].spread) {
+			lo1, hi1, ok1 := sliceOfField(ch[1].spread, ref)
+			lo2, hi2, ok2 := sliceOfField(ch[2].spread, ref)
+			if ok1 && ok2 && isZeroOrNil(lo1) && hi1 != nil && hi2 == nil && lo2 != nil && isPlusOne(lo2, hi1) {
+				return "delete-one", nil, hi1
+			}
+		}
 	case 4:
 		// insert-one: append(append(append(empty, ref[0:p]...), x), ref[p:]...)
 		if ch[0].spread != nil && isEmptyList(ch[0].spread) && len(ch[2].elems) == 1 {
